@@ -294,6 +294,85 @@ def c19_online_exp_interval_shape():
     return ok, f"online encoder yielded {len(out)} slices"
 
 
+def c19_setter_refrac_none():
+    """C19: configurations with refrac=None are reachable through the documented setter."""
+    from inferno.neural import HomogeneousPoissonEncoder
+    e = HomogeneousPoissonEncoder(5, 1.0, 100.0, refrac=2.0)
+    try:
+        e.refrac = None
+    except AttributeError as ex:
+        return False, f"`encoder.refrac = None` raised AttributeError: {ex}"
+    e.dt = 0.5
+    return e.refrac == 0.5, f"after refrac=None and dt=0.5 the refractory period reports {e.refrac}"
+
+
+def c19_setter_approx_frequency():
+    """C19: the maximum frequency of the Bernoulli-approximation encoder is assignable."""
+    from inferno.neural import HomogeneousPoissonApproxEncoder
+    e = HomogeneousPoissonApproxEncoder(5, 1.0, 100.0)
+    try:
+        e.frequency = 50.0
+    except AttributeError as ex:
+        return False, f"`encoder.frequency = 50.0` raised AttributeError: {ex}"
+    return e.frequency == 50.0, f"frequency reports {e.frequency}"
+
+
+def c09_mstdpet_trace_mode_pooling():
+    """C09/C15: two MSTDPET cells sharing a neuron group but using different trace modes keep separate traces."""
+    syn = neural.DeltaCurrent.partialconstructor(1.0)
+    mk = lambda: neural.LinearDense((1,), (1,), 1.0, synapse=syn)
+    lif = neural.LIF((1,), 1.0, rest_v=-60.0, reset_v=-65.0, thresh_v=-50.0, refrac_t=1.0, time_constant=20.0)
+    ca, cb = mk(), mk()
+    layer = neural.Biclique([("a", ca), ("b", cb)], [("x", lif)], combine="sum")
+    ca.updater, cb.updater = ca.defaultupdater(), cb.defaultupdater()
+    tr = learn.MSTDPET(1.0, -0.5, 20.0, 15.0, 10.0)
+    tr.register_cell("a", layer.get_cell("a", "x"))
+    tr.register_cell("b", layer.get_cell("b", "x"), trace_mode="nearest")
+    ma = dict(tr.monitor_pool_.named_monitors_of("a"))
+    mb = dict(tr.monitor_pool_.named_monitors_of("b"))
+    shared = [k for k in ("trace_post", "trace_pre") if k in ma and k in mb and ma[k] is mb[k]]
+    return not shared, f"trace monitors shared between a cumulative-mode and a nearest-mode cell: {shared}"
+
+
+def c18_numpy_reward_signal():
+    """C08/C18: a reward given as numpy.float64 (a float) scales the update like the same python float."""
+    import numpy as np
+    def run(sig):
+        conn = neural.LinearDense((1,), (1,), 1.0, synapse=neural.DeltaCurrent.partialconstructor(1.0))
+        neu = neural.LIF((1,), 1.0, rest_v=-60.0, reset_v=-65.0, thresh_v=-50.0, refrac_t=1.0, time_constant=20.0)
+        lay = neural.Serial(conn, neu)
+        conn.updater = conn.defaultupdater()
+        tr = learn.MSTDP(1.0, -0.5, 20.0, 15.0)
+        tr.register_cell("c", lay.cell)
+        for _ in range(3):
+            lay.neuron.voltage = torch.full_like(lay.neuron.voltage, -40.0)
+            lay(torch.ones(1, 1).bool())
+        tr(sig)
+        a = conn.updater.weight
+        return (None if a.pos is None else float(a.pos.sum()), None if a.neg is None else float(a.neg.sum()))
+    a, b = run(1.0), run(np.float64(1.0))
+    return a == b, f"signal 1.0 -> parts {a}; signal numpy.float64(1.0) -> parts {b}"
+
+
+def c12_classifier_fresh_buffers():
+    """C12: a step-0 checkpoint of a classifier restored into a fresh classifier leaves it unchanged."""
+    c = learn.MaxRateClassifier((4,), 3)
+    before = {k: getattr(c, k).clone() for k in ("assignments", "occurrences", "proportions")}
+    c.load_state_dict(learn.MaxRateClassifier((4,), 3).state_dict())
+    diff = [k for k, v in before.items() if not torch.equal(v, getattr(c, k))]
+    return not diff, f"derived buffers changed by loading an identical fresh state: {diff} (occurrences {before['occurrences'].tolist()} -> {c.occurrences.tolist()})"
+
+
+def c01_narrow_offset_overflow():
+    """C01: tensor offsets of any integer dtype address the same observations as the equal int64 offsets."""
+    r = rt(3, torch.zeros(2))
+    for k in range(1, 4):
+        r.push(torch.tensor([float(k), 10.0 * k]))
+    a = r.readrange(3, torch.tensor([254, 253], dtype=torch.uint8), forward=False).tolist()
+    b = r.readrange(3, torch.tensor([254, 253], dtype=torch.int64), forward=False).tolist()
+    return a == b, f"readrange(3, uint8 offsets [254, 253]) = {a}; same offsets as int64 = {b}"
+
+
 def c20_lognormal_logcdf():
     """C20: log-CDF equals log of the CDF."""
     try:
